@@ -31,11 +31,11 @@ type c08Reader struct {
 	data     []byte
 	pos      int
 	run      *vx.Run
-	chunk    int  // default answer size (0: as much as fits)
-	eofWith  bool // deliver the last data together with io.EOF
-	deviate  bool // ask the explorer for short-read deviations
-	failAt   int  // fail once this many bytes were delivered (-1: never)
-	failWith bool // return the error together with the last data before failAt
+	chunk    int   // default answer size (0: as much as fits)
+	eofWith  bool  // deliver the last data together with io.EOF
+	deviate  bool  // ask the explorer for short-read deviations
+	failAt   int   // fail once this many bytes were delivered (-1: never)
+	failWith bool  // return the error together with the last data before failAt
 	failErr  error // the error to fail with (nil: errC08)
 	reads    int
 }
